@@ -332,10 +332,10 @@ def check(pid, tier, seed, replay=None):
                 total_eval += st.get('evaluations', st.get('cases', 0))
                 total_nt += st.get('distinct_nontrivial', 0)
                 traces += st.get('traces_validated', 0)
-                for smp in st.get('samples', []):
+                for smp in (st.get('samples') or []):
                     if len(samples) < 3:
                         samples.append(smp)
-                for k, v in st.get('distribution', {}).items():
+                for k, v in (st.get('distribution') or {}).items():
                     dist[k] = dist.get(k, 0) + v
                 for k, v in st.items():
                     if k not in ('cases', 'lines', 'distinct_nontrivial', 'distribution', 'samples', 'evaluations', 'traces_validated'):
